@@ -40,7 +40,10 @@ Shapes == <<
   ColShape("0", ""), ColShape("0", ".5"), ColShape("0", ".0"), ColShape("f", ""), ColShape("f", "."), ColShape("fa", ""),
   ColShape("1a", ".25"), ColShape("fa0", ""), ColShape("fc0", ".5"), ColShape("0a0b0c", ""), ColShape("e7bc0b", ""),
   ColShape("ffffff", ""), ColShape("ffffff", ".0"), ColShape("a0", ""),
-  ColShape("ffcc01", ""), ColShape("ff01cc", ""), ColShape("01ffcc", ""), ColShape("aab1cc", ".5") >>
+  ColShape("ffcc01", ""), ColShape("ff01cc", ""), ColShape("01ffcc", ""), ColShape("aab1cc", ".5"),
+  \* numbers with more than four significant digits
+  NumShape(FALSE, "99999", "99999", FALSE, FALSE, ""), NumShape(FALSE, "12345", "12345", FALSE, FALSE, "px"),
+  NumShape(FALSE, "100.25", "100.25", TRUE, FALSE, ""), NumShape(TRUE, "1234.5", "1234.5", TRUE, FALSE, "e") >>
 Keys == << [key |-> "p",  prop |-> "padding",     unitless |-> FALSE, takes |-> "num"],
            [key |-> "m",  prop |-> "margin",      unitless |-> FALSE, takes |-> "num"],
            [key |-> "z",  prop |-> "z-index",     unitless |-> TRUE,  takes |-> "num"],
